@@ -26,13 +26,26 @@ def configs(ctx):
 INVS = ["NoOverCount", "ExactUnpruned", "RejectOnly"]
 
 
-def check_config(ctx, cfg, sample_frac=1.0):
+def sampled_matrices(ctx, cfg, n):
+    rows = C.rows_of(cfg["NC"], cfg["D"])
+    return [tuple(ctx.rng.choice(rows) for _ in range(cfg["T"])) for _ in range(n)]
+
+
+def check_config(ctx, cfg, sample=None):
+    """sample = None: the shape is explored exhaustively by TLC and every matrix is decoded; sample = n: the shape is beyond
+    exhaustive reach - n seeded random matrices are the initial states of the TLC run and are decoded by the real decoder"""
     consts = C.tla_constants(cfg)
-    ctx.tlc("CtcDecoder", constants=consts, invariants=INVS, workers=8, timeout=3000,
-            label="CtcDecoder %s" % _lab(cfg))
-    mats = list(C.all_matrices(cfg["T"], cfg["NC"], cfg["D"], normalised=not cfg.get("Unnorm")))
-    if sample_frac < 1.0:
-        mats = ctx.rng.sample(mats, max(1, int(len(mats) * sample_frac)))
+    if sample is None:
+        ctx.tlc("CtcDecoder", constants=consts, invariants=INVS, workers=8, timeout=3000, label="CtcDecoder %s" % _lab(cfg))
+        mats = list(C.all_matrices(cfg["T"], cfg["NC"], cfg["D"], normalised=not cfg.get("Unnorm")))
+    else:
+        mats = sampled_matrices(ctx, cfg, sample)
+        lit = "{" + ", ".join("<<" + ", ".join("(" + " @@ ".join("%d :> %d" % (c, r[c]) for c in range(len(r))) + ")" for r in m) + ">>"
+                              for m in sorted(set(mats))) + "}"
+        mc = "---- MODULE MC_CtcSample ----\nEXTENDS CtcDecoder\nMCSample == %s\n====\n" % lit
+        ctx.tlc("MC_CtcSample", constants=dict(consts, SampleMats="<-MCSample"), invariants=INVS, workers=8, timeout=3000,
+                files={"MC_CtcSample.tla": mc}, label="CtcDecoder %s (%d sampled matrices)" % (_lab(cfg), len(set(mats))))
+        ctx.exhaustive = False
     cfg = dict(cfg, salt=ctx.seed)
     traces = C.run_config(cfg, mats)
     judge(ctx, cfg, traces)
@@ -70,6 +83,11 @@ def run(ctx):
                "float round-off of the real decoder < 5e-4 of one unit of D^-t (masses are compared after rounding to 1/1000 unit)")
     for cfg in configs(ctx):
         check_config(ctx, cfg)
+    if ctx.tier == "thorough":
+        # shapes beyond exhaustive reach: TLC simulation on the design + seeded random matrices through the real decoder
+        for cfg, n in ((C.base_cfg(T=6, NC=2, D=4, K=2), 3000), (C.base_cfg(T=6, NC=2, D=4, K=100), 1500),
+                       (C.base_cfg(T=6, NC=3, D=3, K=3), 2000), (C.base_cfg(T=8, NC=2, D=3, K=2), 1500)):
+            check_config(ctx, cfg, sample=n)
     # normalisation guard: every matrix over 0..2 weights, normalised or not
     un = C.base_cfg(T=2, NC=2 if ctx.tier == "thorough" else 1, D=2, K=2, Unnorm=True)
     check_config(ctx, un)
